@@ -185,12 +185,21 @@ func KeyLeafValue(in Instance) string {
 // OpaqueVal builds an O value from a real TypedValue: the conversion result and ValueToString are
 // computed with the real value code (the twin takes them as given).
 func OpaqueVal(load string) nbwire.Val {
+	v, _ := opaqueVal(load)
+	return v
+}
+
+// opaqueVal also says whether the real value code panicked on the value (conversion or
+// ValueToString): such a value is a crash of the value layer (listed under C17 while it lasts) and
+// is not sent through the handlers.
+func opaqueVal(load string) (v nbwire.Val, panicked bool) {
 	tv := nbwire.OpaqueValue(load)
-	v := nbwire.Val{Kind: "O", OpLoad: load}
+	v = nbwire.Val{Kind: "O", OpLoad: load}
 	func() {
 		defer func() {
 			if rec := recover(); rec != nil {
 				v.OpOK = false
+				panicked = true
 			}
 		}()
 		nv, err := valueutils.GnmiTypedValueToNativeType(tv, &adminapi.ReadWritePath{})
@@ -199,10 +208,18 @@ func OpaqueVal(load string) nbwire.Val {
 			v.OpRepr = nv.ValueToString()
 		}
 	}()
-	return v
+	return v, panicked
 }
 
 func genOpaque(r *rng.R) nbwire.Val {
+	if r.Chance(1, 6) {
+		// values the conversion has to refuse: NaN, a decimal64 precision beyond 18 (regressions of
+		// two repaired crashes; left out while the tree under test still panics on them)
+		load := r.Pick([]string{"f7fc00000", "fffc00000", "d5.70", "d-7.19", "d1.64", "d3.258"})
+		if v, panicked := opaqueVal(load); !panicked {
+			return v
+		}
+	}
 	switch r.Intn(7) {
 	case 0:
 		return OpaqueVal("b" + hex.EncodeToString([]byte(r.Pick([]string{"", "a", "xyz"}))))
@@ -638,10 +655,58 @@ func GenSet(r *rng.R, spec nbenv.Spec, tables map[string][]ModelPath, mode strin
 			req.Update = append(req.Update, nbwire.Update{Path: o.Path, Val: o.Val})
 		}
 	}
+	// the targets the operations really go to (prefix target wins), known to the topology or not
+	used = EffectiveTargets(req)
 	exts, et := GenExts(r, spec, used, allowNilOverride && mode != "valid")
-	req.Exts = exts
 	tags = append(tags, et...)
+	// an override naming a loaded model for an effective target the topology does not know (or knows
+	// without the Configurable aspect): the override must not make the target exist
+	for _, t := range used {
+		known := false
+		for _, ts := range spec.Targets {
+			if ts.ID == t && ts.HasAspect {
+				known = true
+			}
+		}
+		if !known && len(spec.Plugins) > 0 && r.Chance(1, 2) {
+			p := spec.Plugins[r.Intn(len(spec.Plugins))]
+			ov := OverridesExt(map[string]*configapi.TargetTypeVersion{t: {TargetType: configapi.TargetType(p.Name), TargetVersion: configapi.TargetVersion(p.Version)}})
+			exts = append([]nbwire.Ext{ov}, exts...)
+			tags = append(tags, "ext-override-unknown-target")
+			break
+		}
+	}
+	req.Exts = exts
 	return req, tags
+}
+
+// EffectiveTargets lists the distinct targets the operations of a Set are applied to.
+func EffectiveTargets(req *nbwire.Req) []string {
+	var out []string
+	seen := map[string]bool{}
+	add := func(p *nbwire.PathMsg) {
+		t := ""
+		if p != nil {
+			t = p.Target
+		}
+		if req.Prefix != nil && req.Prefix.Target != "" {
+			t = req.Prefix.Target
+		}
+		if !seen[t] {
+			seen[t] = true
+			out = append(out, t)
+		}
+	}
+	for _, p := range req.Delete {
+		add(p)
+	}
+	for _, u := range req.Replace {
+		add(u.Path)
+	}
+	for _, u := range req.Update {
+		add(u.Path)
+	}
+	return out
 }
 
 // Pick2 helper lives on rng.R through this wrapper type.
@@ -742,13 +807,32 @@ func GenGet(r *rng.R, spec nbenv.Spec, tables map[string][]ModelPath, allowNilOv
 		used = append(used, req.Prefix.Target)
 	}
 	exts, et := GenExts(r, spec, used, allowNilOverride)
-	if r.Chance(1, 25) {
+	if r.Chance(1, 10) {
 		exts = append(exts, StrategyExt(1, 0))
 		tags = append(tags, "get-synchronous")
 	}
 	req.Exts = exts
 	tags = append(tags, et...)
 	return req, tags
+}
+
+// GenSyncGet generates a SYNCHRONOUS Get over several targets whose configurations exist (c1, c2,
+// created by the script) and some that may not: the handler starts one goroutine per target, and
+// every non-persistent target without a master connection reports an error from its goroutine.
+func GenSyncGet(r *rng.R) (*nbwire.Req, []string) {
+	req := &nbwire.Req{HasEnc: true, HasType: true, Enc: []int{0, 2, 4}[r.Intn(3)]}
+	targets := []string{"c2", "c1"}
+	if r.Bool() {
+		targets = append(targets, r.Pick([]string{"t1", "t2", "t3"}))
+	}
+	if r.Chance(1, 4) {
+		targets = targets[:1]
+	}
+	for _, t := range targets {
+		req.Paths = append(req.Paths, &nbwire.PathMsg{Target: t, Elem: []*pb.PathElem{{Name: r.Pick([]string{"foo", "v0", "c"})}}})
+	}
+	req.Exts = []nbwire.Ext{StrategyExt(1, r.Intn(2))}
+	return req, []string{"get-synchronous", "get-synchronous-several-targets"}
 }
 
 // GenSubStream generates the messages of one Subscribe stream.
